@@ -62,6 +62,12 @@ namespace c07
       || (kind == K_IDRS && c.excl("c07-idrs-zero-defect"));
     //  BiCGStab / RBiCGStab accept convergence after the half step without looking at min_iter
     const bool avoid_min_iter = (kind == K_BICGSTAB || kind == K_RBICGSTAB) && c.excl("c07-bicgstab-halfstep-min-iter");
+    //  (F)GMRES(k) counts the inner Krylov steps and then once more in _set_new_defect: a run stopped by max_iter reports
+    //  max_iter+1 iterations unless max_iter is a multiple of k
+    const bool avoid_gmres_overshoot = (kind == K_FGMRES || kind == K_GMRES) && c.excl("c07-gmres-maxiter-overshoot");
+    //  BiCGStab(l), right-preconditioned variant: the final x := M^-1 y (and filter_cor) is applied to the whole iterate including
+    //  the start vector, so correct() with a non-zero start vector / non-zero filter values returns a wrong vector as 'success'
+    const bool avoid_right_correct = (kind == K_BICGSTABL) && c.excl("c07-bicgstabl-right-correct");
     //  IDR(s) keeps _shadow_space_setup == true over done_symbolic()/init_symbolic() although the shadow vectors are re-allocated
     const bool avoid_idrs_reinit = (kind == K_IDRS) && c.excl("c07-idrs-reinit-shadow-space");
 
@@ -160,6 +166,7 @@ namespace c07
     auto gen_solve = [&](bool first) -> SolveSpec
     {
       SolveSpec s; s.correct = t.flag(1, 2);
+      if(avoid_right_correct && sp.variant == 1) s.correct = false;
       int rc = t.pick({4, 3, 1, 1, 2});
       SubTape vt(t.raw(), (size_t)(2 * n + 2), t.size); Tape& r = vt.t;   // vector entries: one choice expands to the values
       std::vector<double> xs((size_t)n, 0.0);
@@ -280,6 +287,8 @@ namespace c07
       cfg.skip = !t.flag(1, 4); cfg.plot = t.pick({8, 1, 1, 1});
     }
 
+    if(avoid_gmres_overshoot) { cfg.max_iter = ((cfg.max_iter + sp.dim - 1) / sp.dim) * sp.dim; if(conv_mode) claim.budget = cfg.max_iter; }
+
     // ---- history
     int init_style = t.pick({2, 1});
     bool rep_a = t.flag(1, 2);
@@ -288,6 +297,7 @@ namespace c07
     int reinit = t.pick({2, 1, 1});     // none / numeric / full
     if(avoid_idrs_reinit && reinit == 2) reinit = 1;
     int done_style = t.pick({2, 1});
+    bool poison = t.flag(1, 3);
     std::vector<std::string> ops;
     ops.push_back(init_style ? "init_symbolic+init_numeric" : "init"); ops.push_back("A");
     if(rep_a) ops.push_back("A"); if(have_b) ops.push_back("B");
@@ -310,6 +320,7 @@ namespace c07
     c.label("sys:" + sys.cls.substr(0, sys.cls.find('('))); c.label(std::string("op:") + (SA.correct ? "correct" : "apply")); c.label("rhs:" + SA.rhs_cls); if(SA.correct) c.label("x0:" + SA.x0_cls);
     c.label(std::string("hist:") + (reinit == 0 ? "single-init" : reinit == 1 ? "reinit-numeric" : "reinit-full")); if(rep_a) c.label("hist:repeat"); if(have_b) c.label("hist:interleaved");
     if(!conv_mode) { if(cfg.min_iter >= cfg.max_iter) c.label("cfg:min>=max"); if(cfg.min_stag) c.label("cfg:stagnation-check"); if(cfg.has_div_rel || cfg.has_div_abs) c.label("cfg:divergence-limits"); if(cfg.has_tol_abs || cfg.has_tol_abs_low) c.label("cfg:abs-tolerances"); if(cfg.plot) c.label("cfg:plot"); if(!cfg.skip) c.label("cfg:noskip"); }
+    if(poison) c.label("heap:nan-poisoned"); c.desc.set("heap_poison", poison);
     if(n == 1) c.label("n:1"); else if(n == 2) c.label("n:2"); else if(n < 10) c.label("n:3-9"); else if(n < 30) c.label("n:10-29"); else c.label("n:30+");
     if(SA.exact_start) c.label("x0:exact-zero-defect");
 
@@ -347,6 +358,12 @@ namespace c07
     c.fd = -1;   // the description is complete: suppress the scaffold's re-announce at the end of the case (it would count every label twice)
 
     // ---- judged run
+    if(poison)
+    {
+      // fresh allocations have unspecified content (MemoryPool uses plain malloc): leave NaN patterns in the free lists
+      // through the public API only, so that a solver reading one of its work vectors before writing it is exposed
+      std::vector<LV> junk; for(int k = 0; k < 48; ++k) junk.emplace_back((Index)n, DT(NaN));
+    }
     auto solver = mk();
     Limits<DT> L(*solver);
     const bool plot_iter = (cfg.plot == 1 || cfg.plot == 3);
@@ -400,8 +417,15 @@ namespace c07
     auto same = [&](const SR& a, const SR& b, const char* what)
     {
       VF_CHECK(a.status == b.status && a.iters == b.iters, "S5 " << what << ": status/iterations differ: " << status_name(a.status) << "/" << a.iters << " vs " << status_name(b.status) << "/" << b.iters);
-      VF_CHECK(a.xbytes == b.xbytes, "S5 " << what << ": iterates differ bitwise (same solver object, same inputs; " << status_name(a.status) << " after " << a.iters << " iterations)");
-      VF_CHECK(memcmp(&a.def0, &b.def0, sizeof(DT)) == 0 && memcmp(&a.defF, &b.defF, sizeof(DT)) == 0, "S5 " << what << ": reported defects differ: " << (double)a.def0 << "->" << (double)a.defF << " vs " << (double)b.def0 << "->" << (double)b.defF);
+      // bitwise, except that any NaN equals any NaN (IEEE 754 leaves sign and payload of an arithmetic NaN unspecified)
+      size_t k = 0;
+      for(; k < a.x.size(); ++k) { if(std::isnan((double)a.x[k]) && std::isnan((double)b.x[k])) continue; if(memcmp(a.xbytes.data() + k * sizeof(DT), b.xbytes.data() + k * sizeof(DT), sizeof(DT)) != 0) break; }
+      if(k < a.x.size())
+      {
+        VF_FAIL("mismatch:S5 " << what << ": iterates differ bitwise (same solver object, same inputs; " << status_name(a.status) << " after " << a.iters << " iterations): x[" << k << "] = " << (double)a.x[k] << " vs " << (double)b.x[k]);
+      }
+      auto beq = [](DT p, DT q) { return (std::isnan((double)p) && std::isnan((double)q)) || memcmp(&p, &q, sizeof(DT)) == 0; };
+      VF_CHECK(beq(a.def0, b.def0) && beq(a.defF, b.defF), "S5 " << what << ": reported defects differ: " << (double)a.def0 << "->" << (double)a.defF << " vs " << (double)b.def0 << "->" << (double)b.defF);
     };
 
     if(init_style) { solver->init_symbolic(); solver->init_numeric(); } else solver->init();
